@@ -198,6 +198,7 @@ def run_check(pid, tier):
             core.write_json(path, {'property': pid, 'kind': 'property-fails-on-real-code', 'seed': seed, 'tier': tier,
                                    'case': cmin, 'observed': omin, 'lean_reply': rmin, 'original_case': c,
                                    'n_failing_cases': len(new),
+                                   'other_failing_cases': [{'case': cc, 'observed': oo} for (cc, oo, rr) in new[1:12]],
                                    'how': './bin/check %s --replay %s' % (pid, os.path.relpath(path, core.HOME))})
             out_lines.append('VIOLATION property=%s replay=%s' % (pid, path))
             violations = len(new)
